@@ -178,16 +178,21 @@ def compile (isFn : Nat → Bool) (c : Ctx) : Expr → G (List Instr × Bool)
   | .arr es => do
     let (code, t) ← compileAll isFn c es
     pure (code ++ [.callArr es.length], t)
-  | .call (.sym h) args =>
-    if c.tail && h == c.funcname then do
+  | .call (.sym h) args => do
+    let tmpl := c.known.lookup h
+    let gs ← get
+    let f : Option FnObj := tmpl.bind (fun t => gs.fns[t]?)
+    -- a self tail call with the wrong number of arguments is an ordinary call (fix C04-04)
+    let arityOk := match f with
+      | some fo => if fo.varargs then decide (fo.nargs ≤ args.length) else args.length == fo.nargs
+      | none => true
+    if c.tail && h == c.funcname && arityOk then do
       -- self tail call: arguments inline, re-enter at instruction 0
-      let tmpl := c.known.lookup h
-      let gs ← get
-      let f : Option FnObj := tmpl.bind (fun t => gs.fns[t]?)
       let code ← compileCallArgs isFn { c with tail := false } f 0 args
       pure (code ++ [.prepareCall h args.length] ++ List.replicate (c.scopes + 1) .removeScope ++ [.goto 0], c.tail)
     else pure ([.callExpr (.sym h) args], c.tail)
   | .call f args => pure ([.callExpr f args], c.tail)
+  | .begin_ [] => pure ([.push .nil], c.tail)          -- (begin) yields nil (fix C04-02)
   | .begin_ es => compileBegin isFn c es
   | .def_ x e => do
     let (code, _) ← compile isFn { c with tail := false } e
@@ -213,7 +218,7 @@ def compile (isFn : Nat → Bool) (c : Ctx) : Expr → G (List Instr × Bool)
     pure ([.addScope] ++ rhs ++ binds ++ b ++ [.removeScope], t)
   | .newScope es =>
     match es with
-    | [] => pure ([], false)
+    | [] => pure ([.push .nil], false)                 -- (newScope) yields nil (fix C04-02)
     | _ => do
       let c1 := { c with scopes := c.scopes + 1 }
       let (code, t) ← compileNewScope isFn c1 c.tail es
